@@ -6,7 +6,7 @@
    fold of the per-action pipeline over the taken actions, each starting from the state the
    previous one left (the first from the initial state). Runtime registration (add_reducer /
    add_middleware while actions flow) is C07's subject and is decided by engine L. *)
-From RS Require Import Base Channel Pipeline PipelineProofs Script World Hist WorldProofs WorldInv WorldQueue WorldStop WorldFold.
+From RS Require Import Base Channel Pipeline PipelineProofs Script World Hist WorldProofs WorldInv WorldQueue WorldStop WorldFold WorldFoldDyn.
 
 Section C01_pure.
 Context {State Action Eff : Type}.
@@ -75,6 +75,25 @@ Proof.
   - apply I.
   - apply (taken_vs_written cfg RS0 MS0 w I TI).
 Qed.
+
+(* the fold under runtime registration (WorldFoldDyn.v; every program - add_reducer and
+   add_middleware calls included - and every schedule): every write-back (a, s) ever made is the
+   pipeline of a applied to the previously written state, run with a middleware list MS and a
+   reducer list RS1 that lie between the registry as it was when the reducer took a and the
+   registry as it is at the write-back (registries only grow at the end: everything registered
+   before the action was taken is in, in registration order; nothing unregistered is); and the
+   state is the last write-back *)
+Theorem C01_fold_runtime_registration : forall RS0 MS0 progs w h2 a s h1,
+  reachable cfg RS0 MS0 progs w -> w_hist w = h2 ++ EWrite a s :: h1 ->
+  exists MS RS1,
+    between (mws_at_deq MS0 h1) MS (mws_all MS0 h1) /\ between (reds_at_deq RS0 h1) RS1 (reds_all RS0 h1) /\
+    s = step_with cfg MS RS1 (last_written (cfg_init cfg) h1) a.
+Proof. intros RS0 MS0 progs w h2 a s h1 R E. exact (write_back_is_pipeline_step cfg RS0 MS0 progs w h2 a s h1 R E). Qed.
+
+Theorem C01_state_and_registries : forall RS0 MS0 progs w, reachable cfg RS0 MS0 progs w ->
+  w_state w = last_written (cfg_init cfg) (w_hist w) /\
+  w_mws w = mws_all MS0 (w_hist w) /\ w_reducers w = reds_all RS0 (w_hist w).
+Proof. intros RS0 MS0 progs w R. destruct (writes_are_pipeline_steps cfg RS0 MS0 progs w R) as (_ & A & B & C). auto. Qed.
 End C01_world.
 
 Print Assumptions C01_chain.
@@ -82,3 +101,5 @@ Print Assumptions C01_action_result.
 Print Assumptions C01_state_is_last_write.
 Print Assumptions C01_exactly_once_partial.
 Print Assumptions C01_fold.
+Print Assumptions C01_fold_runtime_registration.
+Print Assumptions C01_state_and_registries.
